@@ -4,6 +4,7 @@
 //! truth predicate / reference computation.
 
 mod c11;
+mod c12;
 mod c19;
 mod c20;
 mod util;
@@ -13,6 +14,7 @@ fn main() {
     mc_core::quiet_panics();
     match cli.property.as_str() {
         "C11" => c11::run(&cli),
+        "C12" => c12::run(&cli),
         "C19" => c19::run(&cli),
         "C20" => c20::run(&cli),
         other => mc_core::machinery_error(&format!("mc-crypto does not serve property {other}")),
